@@ -2,7 +2,9 @@
 use crate::choice::Src;
 use crate::driver::{Ctx, Obs, Violation, viol};
 use crate::fieldkit::spec_of;
-use crate::lib_api::{FIELDS, MSGS, field_ops, msg_ops, plugin_parse, plugin_publish};
+use crate::lib_api::{
+    FIELDS, MSGS, field_ops, header_from_json, header_parse, msg_ops, plugin_parse, plugin_publish,
+};
 use crate::msgkit::*;
 use crate::props::c02::{FieldRt, diff_tag, gen_field_case};
 use serde_json::{Value, json};
@@ -28,9 +30,74 @@ fn empty_placeholder(v: &Value, cur: &str) -> Option<String> {
 }
 
 pub fn msg_oracle(c: &MutCase, obs: &mut Obs) -> Vec<Violation> {
+    full_oracle(&c.mt, &c.enveloped(), &c.mutation, &format!("msg|MT{}", c.mt), obs)
+}
+
+/// generated envelopes (all header forms and optional header tags) around a minimal body
+pub fn env_oracle(c: &crate::props::c10::EnvCase, obs: &mut Obs) -> Vec<Violation> {
+    let label = if c.near_miss.is_empty() {
+        format!(
+            "b2:{}{}{}{}",
+            &c.b2[0..1],
+            c.b2.len(),
+            if c.b3.is_some() { "+b3" } else { "" },
+            if c.b5.is_some() { "+b5" } else { "" }
+        )
+    } else {
+        format!("near-miss:{}", c.near_miss)
+    };
+    full_oracle(&c.mt, &c.text(), &label, "env", obs)
+}
+
+/// headers on their own: parse -> JSON -> header must give the same JSON and the same text
+pub fn hdr_oracle(c: &crate::props::c10::HdrCase, obs: &mut Obs) -> Vec<Violation> {
     let mut out = Vec::new();
-    let ops = msg_ops(&c.mt);
-    let x = c.enveloped();
+    let (disp, hj) = match header_parse(c.kind, &c.text) {
+        Ok(x) => x,
+        Err(_) => {
+            obs.class("header:rejected-input");
+            return out;
+        }
+    };
+    obs.class(&format!("header:{}", c.class));
+    obs.nontrivial_str(&format!("{}|{}", c.kind, c.text));
+    obs.sample(
+        &format!("header:{}", c.class),
+        || json!({"kind": c.kind, "text": c.text, "json": hj}),
+    );
+    match header_from_json(c.kind, &hj) {
+        Err(e) => {
+            if !e.is_panic() {
+                out.push(viol(
+                    format!("C08|header|block{}|json-rejected", c.kind),
+                    format!("own JSON is rejected: {}\n{}", e.text(), hj),
+                ));
+            }
+        }
+        Ok((d2, j2)) => {
+            if j2 != hj {
+                let tag = diff_tag(&hj, &j2, "").unwrap_or_default();
+                out.push(viol(
+                    format!("C08|header|block{}|json-differs|{tag}", c.kind),
+                    format!("JSON round trip of {:?} differs at {tag}:\n{}\nvs\n{}", c.text, hj, j2),
+                ));
+            }
+            if d2 != disp {
+                out.push(viol(
+                    format!("C08|header|block{}|mt-differs-after-json", c.kind),
+                    format!("header rebuilt from JSON displays {:?}, the parsed one {:?}", d2, disp),
+                ));
+            }
+        }
+    }
+    out
+}
+
+fn full_oracle(mt: &str, x: &str, mutation: &str, scope: &str, obs: &mut Obs) -> Vec<Violation> {
+    let mut out = Vec::new();
+    let ops = msg_ops(mt);
+    let x = x.to_string();
+    let c_mt = mt.to_string();
     if crate::refs::has_long_number(&x) {
         obs.excluded("amount-beyond-f64-precision (C06 reports it)");
         return out;
@@ -42,16 +109,15 @@ pub fn msg_oracle(c: &MutCase, obs: &mut Obs) -> Vec<Violation> {
             return out;
         }
     };
-    obs.class(&format!("msg:accepted:{}", c.mutation));
+    obs.class(&format!("{}:accepted:{}", scope.split('|').next().unwrap_or("msg"), mutation));
     obs.nontrivial_str(&x);
-    obs.sample("msg", || json!({"mt": c.mt, "text": x, "json": m.json}));
-    let mt = &c.mt;
+    obs.sample(scope.split('|').next().unwrap_or("msg"), || json!({"mt": c_mt, "text": x, "json": m.json}));
     // (1) JSON -> message -> JSON
     match (ops.full_from_json)(&m.json) {
         Err(e) => {
             if !e.is_panic() {
                 out.push(viol(
-                    format!("C08|msg|MT{mt}|json-rejected"),
+                    format!("C08|{scope}|json-rejected"),
                     format!("own JSON is rejected: {}\n{}", e.text(), m.json),
                 ));
             }
@@ -60,7 +126,7 @@ pub fn msg_oracle(c: &MutCase, obs: &mut Obs) -> Vec<Violation> {
             if m2.json != m.json {
                 let tag = diff_tag(&m.json, &m2.json, "").unwrap_or_default();
                 out.push(viol(
-                    format!("C08|msg|MT{mt}|json-differs|{tag}"),
+                    format!("C08|{scope}|json-differs|{tag}"),
                     format!(
                         "JSON round trip differs at {tag}:\n{}\nvs\n{}",
                         m.json, m2.json
@@ -69,7 +135,7 @@ pub fn msg_oracle(c: &MutCase, obs: &mut Obs) -> Vec<Violation> {
             }
             if m2.mt_message != m.mt_message {
                 out.push(viol(
-                    format!("C08|msg|MT{mt}|mt-differs-after-json"),
+                    format!("C08|{scope}|mt-differs-after-json"),
                     format!(
                         "message rebuilt from JSON serialises differently:\n{}\nvs\n{}",
                         m.mt_message, m2.mt_message
@@ -83,7 +149,7 @@ pub fn msg_oracle(c: &MutCase, obs: &mut Obs) -> Vec<Violation> {
         Err(e) => {
             if !e.is_panic() {
                 out.push(viol(
-                    format!("C08|msg|MT{mt}|publish-rejected"),
+                    format!("C08|{scope}|publish-rejected"),
                     format!(
                         "publish_mt rejects the JSON of a parsed message: {}",
                         e.text()
@@ -94,7 +160,7 @@ pub fn msg_oracle(c: &MutCase, obs: &mut Obs) -> Vec<Violation> {
         Ok(t) => {
             if t != m.mt_message {
                 out.push(viol(
-                    format!("C08|msg|MT{mt}|publish-differs"),
+                    format!("C08|{scope}|publish-differs"),
                     format!(
                         "publish_mt text differs from to_mt_message:\n{}\nvs\n{}",
                         t, m.mt_message
@@ -108,7 +174,7 @@ pub fn msg_oracle(c: &MutCase, obs: &mut Obs) -> Vec<Violation> {
         Err(e) => {
             if !e.is_panic() {
                 out.push(viol(
-                    format!("C08|msg|MT{mt}|plugin-parse-rejected"),
+                    format!("C08|{scope}|plugin-parse-rejected"),
                     format!(
                         "parse_mt rejects a message the typed API accepts: {}",
                         e.text()
@@ -120,7 +186,7 @@ pub fn msg_oracle(c: &MutCase, obs: &mut Obs) -> Vec<Violation> {
             if data != m.json {
                 let tag = diff_tag(&m.json, &data, "").unwrap_or_default();
                 out.push(viol(
-                    format!("C08|msg|MT{mt}|plugin-parse-differs|{tag}"),
+                    format!("C08|{scope}|plugin-parse-differs|{tag}"),
                     format!("parse_mt JSON differs from the typed JSON at {tag}"),
                 ));
             }
@@ -130,7 +196,7 @@ pub fn msg_oracle(c: &MutCase, obs: &mut Obs) -> Vec<Violation> {
     if let Some(f) = m.json.get("fields") {
         if let Some(tag) = empty_placeholder(f, "") {
             out.push(viol(
-                format!("C08|msg|MT{mt}|empty-placeholder|{tag}"),
+                format!("C08|{scope}|empty-placeholder|{tag}"),
                 format!("JSON carries an empty string/object/array at {tag}: {}", f),
             ));
         }
@@ -211,7 +277,7 @@ pub fn field_oracle_with(c: &FieldRt, obs: &mut Obs, judge_undetermined: bool) -
 }
 
 pub fn run(ctx: &Ctx) {
-    ctx.add_rule("message level: per type, valid / mutated texts in an envelope (LF/CRLF); accepted => from_value(to_value(m)) equal in JSON and MT text, publish_mt(JSON) == to_mt_message, parse_mt JSON == typed JSON, no empty placeholder; field level: per field type (114), accepted documented-format contents => from_value(to_value(v)) equal in JSON and MT; non-trivial = accepted; distinct by input");
+    ctx.add_rule("message level: per type, valid / mutated texts in a fixed envelope (LF/CRLF), and minimal bodies in generated envelopes (every block-1/2 form, block-3/5 tag subsets); headers on their own (parse -> JSON -> header equal in JSON and text); accepted => from_value(to_value(m)) equal in JSON and MT text, publish_mt(JSON) == to_mt_message, parse_mt JSON == typed JSON, no empty placeholder; field level: per field type (114), accepted documented-format contents => from_value(to_value(v)) equal in JSON and MT; non-trivial = accepted; distinct by input");
     let to_json = |c: &MutCase| serde_json::to_value(c).unwrap();
     ctx.run_generated(
         "msg",
@@ -221,6 +287,26 @@ pub fn run(ctx: &Ctx) {
         &|sh, src: &mut Src| crate::props::c02::gen_msg_case(mt_of_shard(sh), src),
         &msg_oracle,
         &to_json,
+    );
+    let to_json_env = |c: &crate::props::c10::EnvCase| serde_json::to_value(c).unwrap();
+    ctx.run_generated(
+        "env",
+        MSGS.len(),
+        ctx.n(1500, 30000),
+        400,
+        &|sh, src: &mut Src| crate::props::c10::gen_env(mt_of_shard(sh), src),
+        &env_oracle,
+        &to_json_env,
+    );
+    let to_json_hdr = |c: &crate::props::c10::HdrCase| serde_json::to_value(c).unwrap();
+    ctx.run_generated(
+        "header",
+        16,
+        ctx.n(4000, 60000),
+        120,
+        &|_sh, src: &mut Src| crate::props::c10::gen_hdr(src),
+        &hdr_oracle,
+        &to_json_hdr,
     );
     let to_json2 = |c: &FieldRt| serde_json::to_value(c).unwrap();
     ctx.run_generated(
@@ -246,6 +332,14 @@ pub fn replay(_ctx: &Ctx, sub: &str, case: &Value) -> Vec<Violation> {
     if sub == "field" || sub == "field-grid" {
         let c: FieldRt = serde_json::from_value(case.clone()).expect("replay case");
         field_oracle_with(&c, &mut Obs::default(), true)
+    } else if sub == "env" {
+        let c: crate::props::c10::EnvCase =
+            serde_json::from_value(case.clone()).expect("replay case");
+        env_oracle(&c, &mut Obs::default())
+    } else if sub == "header" {
+        let c: crate::props::c10::HdrCase =
+            serde_json::from_value(case.clone()).expect("replay case");
+        hdr_oracle(&c, &mut Obs::default())
     } else {
         let c: MutCase = serde_json::from_value(case.clone()).expect("replay case");
         msg_oracle(&c, &mut Obs::default())
